@@ -20,7 +20,7 @@ RULE = (
     "Hypothesis draws 1-7 (thorough 1-12) pairwise-distinct codepoint sequences of length 1-14 from a pool built to interact (ASCII letters, "
     "hex look-alikes a-g, ZWJ, VS16, skin tones, regional indicators, keycaps, arbitrary scalars; strict prefixes, shared first components, "
     "sequences of other sources' singles, names > 63 chars), one of the 13 colour formats, keep_glyph_names, a viewBox aspect in 1:4..4:1 and "
-    "metrics/width. Every source carries a signature (unique fill colour / PNG bytes / rectangle size). Oracle on the reloaded font, with our "
+    "metrics/width; a third of the sources also carry one common badge shape (glyphs sharing a shape are grouped and reordered in OT-SVG). Every source carries a signature (unique fill colour / PNG bytes / rectangle size). Oracle on the reloaded font, with our "
     "own shaper (cmap + ccmp ligatures per the OpenType algorithm): each sequence shapes to one glyph, distinct per source, that carries "
     "that source's signature; glyph 0 is .notdef with an outline; U+0020 maps to a blank glyph; codepoints used only inside sequences map to "
     "blank glyphs without colour records; advance = max(width, round(em*w/h)); shaping a strict prefix that is not itself a source, or a "
@@ -45,12 +45,15 @@ def case_st(draw, tier):
     aspect = draw(st.sampled_from([1.0, 1.0, 0.25, 0.5, 2.0, 4.0, 1.5, 0.8]))
     res = draw(st.sampled_from([16, 32, 40, 64]))
     cfg = dict(m, color_format=fmt, keep_glyph_names=draw(st.booleans()), bitmap_resolution=res)
+    # some sources carry one and the same small badge besides their signature: glyphs that share a shape are grouped (and, in
+    # OT-SVG, reordered and put in one document) - sources that share nothing must come through that unharmed too
+    share = [draw(st.sampled_from([False, False, True])) for _ in range(n)]
     if fmt in ("cbdt", "sbix"):
         # keep the strike representable (C14 judges the limits)
         emh = cfg["ascender"] - cfg["descender"]
         if cfg["upem"] * res / emh > 120 or cfg["ascender"] * res / emh > 110 or max(cfg["width"], emh * aspect) * res / emh > 250:
             cfg.update(upem=1024, ascender=950, descender=-250, width=draw(st.sampled_from([0, 1200, 1275])))
-    return {"cfg": cfg, "seqs": seqs, "aspect": aspect}
+    return {"cfg": cfg, "seqs": seqs, "aspect": aspect, "share": share}
 
 
 def cases(tier):
@@ -61,7 +64,7 @@ def sig_color(i):
     return (17 + i * 29) % 256, (201 + i * 53) % 256, (90 + i * 11) % 256
 
 
-def source_for(i, cfg, aspect):
+def source_for(i, cfg, aspect, badge=False):
     fmt = cfg["color_format"]
     if fmt in ("cbdt", "sbix"):
         h = cfg["bitmap_resolution"]
@@ -73,8 +76,15 @@ def source_for(i, cfg, aspect):
     # signature rectangle: unique size per source
     x0, y0 = 0.1 * vbw, 10.0
     w, h = vbw * (0.3 + 0.04 * i), 20.0 + 3.0 * i
-    d = "M%g,%g L%g,%g L%g,%g L%g,%g Z" % (x0, y0, x0 + w, y0, x0 + w, y0 + h, x0, y0 + h)
-    svg = '<svg xmlns="http://www.w3.org/2000/svg" viewBox="0 0 %g %g"><defs/><path d="%s" fill="#%02x%02x%02x"/></svg>' % (vbw, vbh, d, r, g, b)
+    # a rectangle with a notch in one edge at a source-specific fraction: same bounds as the plain rectangle, but no two of them
+    # are affine images of each other, so sources share an outline only through the badge below
+    a = 0.25 + 0.05 * (i % 10)
+    d = "M%g,%g L%g,%g L%g,%g L%g,%g L%g,%g L%g,%g Z" % (x0, y0, x0 + w, y0, x0 + w, y0 + h, x0 + w * a, y0 + h, x0 + w * (a - 0.1), y0 + h * (0.55 + 0.03 * (i // 10)), x0, y0 + h)
+    extra = ""
+    if badge:
+        bx, by = x0 + 0.02 * vbw, y0 + 2.0  # inside the signature rectangle: bounds stay the signature's
+        extra = '<path d="M%g,%g L%g,%g L%g,%g Z" fill="#000000"/>' % (bx, by, bx + 0.1 * vbw, by, bx, by + 8.0)
+    svg = '<svg xmlns="http://www.w3.org/2000/svg" viewBox="0 0 %g %g"><defs/><path d="%s" fill="#%02x%02x%02x"/>%s</svg>' % (vbw, vbh, d, r, g, b, extra)
     return {"svg": svg}, (0, 0, vbw, vbh)
 
 
@@ -107,7 +117,7 @@ def judge(case):
     srcs = []
     vbs = []
     for i, cps in enumerate(seqs):
-        s, vb = source_for(i, cfg, case["aspect"])
+        s, vb = source_for(i, cfg, case["aspect"], badge=bool(case.get("share") and case["share"][i]))
         s["cps"] = cps
         srcs.append(s)
         vbs.append(vb)
@@ -181,7 +191,8 @@ def judge(case):
             else:
                 t, _ = impl_tree(font, gname, reader=rd, doc_cache=cache)
                 lfs = list(leaves(t))
-                if len(lfs) != 1 or not isinstance(lfs[0].paint, Solid) or lfs[0].paint.rgb != (float(r_), float(g_), float(b_)):
+                want_n = 2 if (case.get("share") and case["share"][i]) else 1
+                if len(lfs) != want_n or not isinstance(lfs[0].paint, Solid) or lfs[0].paint.rgb != (float(r_), float(g_), float(b_)):
                     v.fail("wrong-artwork", fmt, {"source": i, "glyph": gname, "paint": repr(lfs[0].paint) if lfs else None, "want": (r_, g_, b_)})
         except (BadCOLR, UnsupportedPaint, BadSVG, UnsupportedSVG) as e:
             v.fail("bad-colour-table", getattr(e, "kind", type(e).__name__), {"source": i, "msg": str(e)})
@@ -213,9 +224,10 @@ def judge(case):
 
 def shrink(case):
     seqs = case["seqs"]
+    share = list(case.get("share") or [False] * len(seqs))
     for i in range(len(seqs)):
         if len(seqs) > 1:
-            yield dict(case, seqs=seqs[:i] + seqs[i + 1 :])
+            yield dict(case, seqs=seqs[:i] + seqs[i + 1 :], share=share[:i] + share[i + 1 :])
     for i, s in enumerate(seqs):
         if len(s) > 1:
             for cand in (s[:-1], s[1:]):
